@@ -32,7 +32,7 @@ func init() {
 		ThoroughSec: 600,
 		Rule: "one run = one sender marshalling 1-12 drawn well-formed packets (0-15 CSRC, none/one-byte/two-byte/legacy extensions, " +
 			"empty..large payload, RTP padding 0-255) with Packet.MarshalTo and Header.MarshalTo into buffers of a recycling pool " +
-			"(1-4 buffers, prior contents = earlier packets or poison) at drawn destination lengths {0,1,11,12,hdr-1,hdr,size-1,size,size+1,size+k}; " +
+			"(1-4 buffers, prior contents = earlier packets or poison) at drawn destination lengths {0,1,11,12,hdr-1,hdr,size-1,size,size+1,size+k, uniform below size}; " +
 			"fingerprint = hash(packet shape, destination-length class, dirty/clean, buffer generation>0); non-trivial = the destination was dirty " +
 			"(previously used or poisoned) or shorter than MarshalSize",
 		Real: []string{"rtp.Packet.MarshalTo", "rtp.Header.MarshalTo", "rtp.Packet.Marshal", "rtp.Packet.MarshalSize", "rtp.Header.MarshalSize", "rtp.Header.SetExtension"},
@@ -126,7 +126,7 @@ func c04one(c *core.Ctx, spec *pktSpec, pkt *rtp.Packet, pb *poolBuf) {
 		target = hsize
 	}
 	// destination length class
-	cls := t.Weighted(5, 4, 3, 1, 1, 1, 1, 1, 1, 2)
+	cls := t.Weighted(5, 4, 3, 1, 1, 1, 1, 1, 1, 2, 3)
 	var dlen int
 	switch cls {
 	case 0:
@@ -154,6 +154,8 @@ func c04one(c *core.Ctx, spec *pktSpec, pkt *rtp.Packet, pb *poolBuf) {
 		}
 	case 9:
 		dlen = target + 1
+	case 10:
+		dlen = t.Intn(target + 1) // anywhere below (or at) the needed size
 	}
 	if dlen < 0 {
 		dlen = 0
